@@ -53,6 +53,8 @@ def strategy(tier):
         'wo': st.sampled_from(['<', '>']),
         'via': st.sampled_from(['bytes', 'regs']),
         'items': st.lists(_item(), min_size=1, max_size=12),
+        # after which items the caller looks at the builder (build / to_registers / to_string) before adding more
+        'peek': st.lists(st.integers(0, 11), min_size=0, max_size=3),
     })
 
 
@@ -124,7 +126,13 @@ def run_case(case):
     labels = ['order:' + bo + wo, 'via:' + via]
     try:
         b = BinaryPayloadBuilder(byteorder=bo, wordorder=wo)
-        for kind, v in items:
+        peek = set(case.get('peek') or [])
+        for n_, (kind, v) in enumerate(items):
+            if n_ in peek and n_ > 0:
+                labels.append('peek')
+                b.build()
+                b.to_registers()
+                b.to_string()
             labels.append('t:' + kind)
             if kind in INTS:
                 size, signed = INTS[kind]
